@@ -692,6 +692,17 @@ class Interp:
                     res = (None, s.raising(out.value))
                 else:
                     raise Unsupported('%s outside loop in %s' % (out.kind, fn.qualname))
+                if getattr(self.hooks, 'list_writeback', False):
+                    # a followed list passed in and updated in place (the parameter is never
+                    # re-bound in the callee): the caller's list is the same object
+                    wb = {}
+                    for k_, p_ in enumerate(pos):
+                        a0 = env.get(p_)
+                        a1 = out.state.env.get(p_)
+                        if isinstance(a0, Tup) and a0.kind == 'list' and a1 is not None and \
+                                a1 != a0 and not fn.rebinds(p_):
+                            wb[k_] = (a0, a1)
+                    self._writeback = (fn, wb) if wb else None
                 # while the consumer continues with this outcome the callee frame is finished:
                 # keep `self.stack` equal to the abstract call stack (recursion test, locations)
                 self.stack.pop()
@@ -892,6 +903,11 @@ class Interp:
                                 continue
                             s3 = s2.effect(Effect('del', ('item', o, i), (), node.lineno,
                                                   self.cur.qualname))
+                            if isinstance(t.value, ast.Name) and isinstance(o, (Tup, DictV)) and \
+                                    s3.env.get(t.value.id) == o and not (
+                                        isinstance(o, Tup) and o.kind != 'list'):
+                                s3 = s3.bind(t.value.id,
+                                             self._deleted_from(o, i, t.value.id, node.lineno))
                             r = self.hooks.stored(self, o, i, None, s3)
                             nxt.append(r if r is not None else s3)
                 elif isinstance(t, ast.Name):
@@ -1405,8 +1421,44 @@ class Interp:
         else:
             raise Unsupported('assignment target %s' % type(tgt).__name__)
 
+    @staticmethod
+    def _const_slice(i):
+        """(lo, hi) python ints / None of a step-less slice index with constant bounds, else None."""
+        if not (isinstance(i, tuple) and i and i[0] == 'slice' and i[3] == NONE):
+            return None
+        out = []
+        for x in i[1:3]:
+            if x == NONE:
+                out.append(None)
+            elif isinstance(x, Sym) and x.is_const() and x.const_value().denominator == 1:
+                out.append(int(x.const_value()))
+            else:
+                return None
+        return tuple(out)
+
+    def _deleted_from(self, o, i, name, lineno):
+        """The list value after `del o[i]` (contents forgotten when the position is not known)."""
+        if isinstance(o, Tup) and o.kind == 'list':
+            items = list(o.items)
+            sl = self._const_slice(i)
+            k = num_of(i) if not isinstance(i, tuple) else None
+            if sl is not None:
+                del items[sl[0]:sl[1]]
+                return Tup(tuple(items), 'list')
+            if isinstance(k, Sym) and k.is_const() and k.const_value().denominator == 1 and \
+                    -len(items) <= int(k.const_value()) < len(items):
+                del items[int(k.const_value())]
+                return Tup(tuple(items), 'list')
+        return Opaque('havoc:%s@%d' % (name, lineno), (), 'dict' if isinstance(o, DictV) else 'list')
+
     def _stored_into(self, o, i, v, tgt):
         """The container value after `o[i] = v` (contents forgotten when the slot is not known)."""
+        if isinstance(o, Tup) and o.kind == 'list' and self._const_slice(i) is not None and \
+                isinstance(v, Tup):
+            lo, hi = self._const_slice(i)
+            items = list(o.items)
+            items[lo:hi] = list(v.items)
+            return Tup(tuple(items), 'list')
         if isinstance(o, Tup) and o.kind == 'list' and isinstance(i, Sym) and i.is_const() and \
                 i.const_value().denominator == 1 and \
                 -len(o.items) <= int(i.const_value()) < len(o.items):
@@ -2685,7 +2737,19 @@ class Interp:
                         yield None, s3
                         continue
                     kwargs = self._kwargs_of(node, kvals)
-                    yield from self.do_call(f, args, kwargs, s3, node)
+                    if not getattr(self.hooks, 'list_writeback', False):
+                        yield from self.do_call(f, args, kwargs, s3, node)
+                        continue
+                    self._writeback = None
+                    for res, s4 in self.do_call(f, args, kwargs, s3, node):
+                        wb, self._writeback = self._writeback, None
+                        if wb and isinstance(f, FuncRef) and wb[0] is f.fn:
+                            off = 0
+                            for k_, (a0, a1) in wb[1].items():
+                                an = node.args[k_ + off] if k_ + off < len(node.args) else None
+                                if isinstance(an, ast.Name) and s4.env.get(an.id) == a0:
+                                    s4 = s4.bind(an.id, a1)
+                        yield res, s4
 
     def _nested_mutation(self, node, name, index_node, meth, st):
         """`table[k].append(x)` and the like on a container held in a local variable: the inner
@@ -2760,7 +2824,19 @@ class Interp:
                         yield None, s3
                         continue
                     kwargs = self._kwargs_of(node, kvals)
-                    yield from self.do_call(f, args, kwargs, s3, node)
+                    if not getattr(self.hooks, 'list_writeback', False):
+                        yield from self.do_call(f, args, kwargs, s3, node)
+                        continue
+                    self._writeback = None
+                    for res, s4 in self.do_call(f, args, kwargs, s3, node):
+                        wb, self._writeback = self._writeback, None
+                        if wb and isinstance(f, FuncRef) and wb[0] is f.fn:
+                            off = 0
+                            for k_, (a0, a1) in wb[1].items():
+                                an = node.args[k_ + off] if k_ + off < len(node.args) else None
+                                if isinstance(an, ast.Name) and s4.env.get(an.id) == a0:
+                                    s4 = s4.bind(an.id, a1)
+                        yield res, s4
 
     OTHER_MUTATORS = ('update', 'setdefault', 'popitem', 'add', 'discard', 'remove', 'sort',
                       'reverse', 'popleft', 'appendleft', 'extendleft', 'pop', 'clear',
